@@ -228,6 +228,24 @@ func (q Seq) Expand() []bool {
 				out[i] = !out[i]
 			}
 		}
+	case "bytewords": // 64-bit (8-byte) aligned words, each all-zero / all-one / random / alternating with weights from A (percent of constant words)
+		for w := 0; w*64 < n; w++ {
+			kind := r.Intn(100)
+			var word uint64
+			switch {
+			case kind < q.A/2:
+				word = 0
+			case kind < q.A:
+				word = ^uint64(0)
+			case kind < q.A+5:
+				word = 0xaaaaaaaaaaaaaaaa
+			default:
+				word = r.Uint64()
+			}
+			for j := 0; j < 64 && w*64+j < n; j++ {
+				out[w*64+j] = word>>uint(63-j)&1 == 1
+			}
+		}
 	case "exactones": // exactly A ones, shuffled
 		for i := range out {
 			out[i] = i < q.A
@@ -382,7 +400,7 @@ func Unpack(data []byte) []bool {
 
 // Families lists the general-purpose families drawn by DrawSeq.
 var Families = []string{"explicit", "uniform", "biased", "constant", "alternating", "periodic", "sparse",
-	"markov", "transition", "longrun", "runs", "walk", "tone", "balanced", "debruijn"}
+	"markov", "transition", "longrun", "runs", "walk", "tone", "balanced", "debruijn", "bytewords"}
 
 // DrawSeq draws a recipe of length n from the given families (nil = all).
 // "explicit" is only used for n <= 4096 (bits are rapid draws and shrink structurally).
@@ -444,6 +462,9 @@ func DrawSeq(t *rapid.T, n int, families []string) Seq {
 		z := int(math.Round(math.Pow(float64(n), e)))
 		q.A = max(1, min(n, z))
 		q.B = rapid.IntRange(0, 1).Draw(t, "down")
+	case "bytewords":
+		q.Seed = seed()
+		q.A = rapid.SampledFrom([]int{5, 20, 50, 80, 95}).Draw(t, "constant_percent")
 	case "debruijn":
 		q.A = rapid.IntRange(1, 12).Draw(t, "order")
 		q.B = rapid.IntRange(0, 1<<uint(q.A)-1).Draw(t, "rotation")
